@@ -315,6 +315,35 @@ fn run_case(line: &str) -> String {
         }
         _ => (ps, pb),
     };
+    // a number literal after the equal-valued number of the OTHER variant (`7.0` after `7`, `255` after `255.0`):
+    // an interning key that identifies numerically equal constants answers with the earlier variant
+    let (ps, pb) = match (kind, parse_simple_number(&text)) {
+        ("N", Ok(n)) if ps == s && pb == b => {
+            let twin = match n {
+                SimpleNumber::Float(f) if f.is_finite() && f.fract() == 0.0 && f.abs() < 2147483648.0 && f >= 0.0 => Some(format!("{}", f as i64)),
+                SimpleNumber::Integer(i) if i >= 0 => Some(format!("{}.0", i)),
+                _ => None,
+            };
+            match twin {
+                None => (ps, pb),
+                Some(t) => {
+                    let prelude3 = format!("{}\n\n", t);
+                    let ps3 = catch(|| {
+                        let mut data = SimpleGarnishData::new();
+                        pipeline_after(&mut data, kind, &src, &prelude3)
+                    })
+                    .unwrap_or_else(|_| "PANIC".to_string());
+                    let pb3 = catch(|| match BasicGarnishData::<(), NoOpCompanion>::new(NoOpCompanion::new()) {
+                        Ok(mut data) => pipeline_after(&mut data, kind, &src, &prelude3),
+                        Err(_) => "RunErr".to_string(),
+                    })
+                    .unwrap_or_else(|_| "PANIC".to_string());
+                    (ps3, pb3)
+                }
+            }
+        }
+        _ => (ps, pb),
+    };
     let same = |x: &String, y: &String| if x == y { "same".to_string() } else { x.clone() };
     format!("{}\tD={};S={};B={}\t{}\tPS={};PB={}", line, d, s, b, o, same(&ps, &s), same(&pb, &b))
 }
